@@ -507,6 +507,37 @@ def run(chk: common.Check) -> None:
             chk.cov.count('where', 'task-callback')
             if msgs:
                 oracle_fail.append((('task-callback', off, variant, False), [], msgs))
+    # the consequence the property names: every trace that starts in the child is reported as ended — through the real trace machinery
+    # in-process, on programs whose threads and tasks end in every way (return, raise, cancellation, left pending, not joined)
+    from .. import progs
+    from . import _trace
+    tspecs = []
+    for k, (src, _) in enumerate([progs.cancelled_tasks(random.Random(1)), progs.concurrent(random.Random(2), 2, 2), progs.concurrent(random.Random(3), 2, 1, join=False),
+                                  progs.sequential_tasks(random.Random(4), 6),
+                                  ("import threading, asyncio\ndef boom():\n    raise ValueError('in thread')\nt = threading.Thread(target=boom)\nt.start()\nt.join()\n"
+                                   "async def bad():\n    raise KeyError('in task')\nasync def amain():\n    r = await asyncio.gather(bad(), return_exceptions=True)\n"
+                                   "asyncio.run(amain())\nx = 1\n", {})]):
+        for pol in ({'kind': 'all', 'command': 'next'}, {'kind': 'all', 'command': 'continue'}):
+            tspecs.append({'source': src, 'policy': pol, 'trace_threads': True, 'trace_modules': False, 'kind': 'every-trace-ends', 'timeout': 40,
+                           'want_reference': False, 'want_recorder': False})
+    for r in _trace.run_specs(tspecs, chunk=4):
+        sp = r['spec']
+        chk.cov.case(('every-trace-ends', sp['source'], repr(sp['policy'])))
+        chk.cov.count('where', 'trace-pipeline')
+        if 'harness_error' in r:
+            if not r['harness_error'].startswith('SKIPPED'):
+                oracle_fail.append((('trace-pipeline', sp['source'][:60], sp['policy']['command'], False), [], [f'the traced run did not complete: {r["harness_error"][:200]}']))
+            continue
+        evs = r['traced']['events']
+        started = [e['trace_no'] for e in evs if e['_type'] == 'OnStartTrace']
+        ended = [e['trace_no'] for e in evs if e['_type'] == 'OnEndTrace']
+        m = []
+        if sorted(started) != sorted(ended):
+            m.append(f'traces started {sorted(started)}, traces reported as ended {sorted(ended)}')
+        if r['traced'].get('error'):
+            m.append(f"the run raised {r['traced']['error']}")
+        if m:
+            oracle_fail.append((('trace-pipeline', sp['source'], sp['policy']['command'], False), [], m))
     chk.cov.extra['preemption_points_reached'] = nreached
     chk.cov.extra['monitor_bytecode_offsets'] = len(mon_offs)
     chk.cov.extra['register_bytecode_offsets'] = len(reg_offs)
